@@ -45,7 +45,7 @@ KNOWN = os.environ.get("MAPI_KNOWN", os.path.join(VERIF, "known_findings.json"))
 TLC_WORKERS = os.environ.get("TLC_WORKERS", "8")
 JUDGE_ENV = dict(JAVA_TOOL_OPTIONS="-Xss1g -Dtlc2.tool.queue.IStateQueue=StateDeque")
 RANDOM_CHUNK = 100  # runs per MapiMon invocation
-RANDOM_RUNS = {"quick": 60, "thorough": 600}
+RANDOM_RUNS = {"quick": 60, "thorough": 400}
 
 
 def _run(cmd, **kw):
@@ -326,6 +326,9 @@ if __name__ == "__main__":
         seed = int(sys.argv[2]) if len(sys.argv) > 2 else 1
         wd = sys.argv[3] if len(sys.argv) > 3 else os.path.join(VERIF, "work", "mapi_stage")
         out = run(tier, seed, wd)
-        out["samples"] = out["samples"][:1]
-        out["judge"] = out["judge"][:5]
-        print(json.dumps(out, indent=1)[:8000])
+        out["samples"] = len(out["samples"])
+        out["judge"] = out["judge"][:3]
+        out["n_violations"], out["n_known"] = len(out["violations"]), len(out["known"])
+        out["violations"] = out["violations"][:12]
+        out["known"] = out["known"][:12]
+        print(json.dumps(out, indent=1))
